@@ -20,7 +20,8 @@ reg(Prop(
          ' Instantiation with a heap-backed scalar whose move is not a copy (vf::heavy: a moved-from operand reads as 7777). Floating point boxes over coordinates for which x + (y - x) != y: intersection / extend_bounding_box must select corner coordinates exactly, contains / contains_point / intersects are comparisons.'
          ' Instantiation with vf::natural, an exact scalar without negative values (negation and subtraction below zero saturate and are counted).'
          ' Boxes with one NaN bound (empty point sets): contains_point false for every probe, intersections with them contain no point, both operand orders.'
-         ' contains() with non-empty inner boxes whose volume is not representable in T (65536 x 65536 in unsigned, 1e-30 x 1e-30 in float).',
+         ' contains() with non-empty inner boxes whose volume is not representable in T (65536 x 65536 in unsigned, 1e-30 x 1e-30 in float).'
+         ' Inverted boxes: pos + size == max and box(pos, size) reproduces the box (not for vf::natural).',
     assumptions=COMMON_ASSUMPTIONS + [
         'vf::natural: only calls whose exact result is a natural number are judged (the unsigned side conditions); intermediate results below zero are counted, not judged',
         'side conditions taken from the statement: intersects and extend_bounding_box are judged only for two non-empty boxes, '
